@@ -542,6 +542,12 @@ func (ex *Exec) ensureInit(pkg *ssa.Package, shared bool) {
 		return
 	}
 	done[pkg] = true
+	if !shared {
+		if snap := ex.snaps[pkg]; snap != nil && snap.ok {
+			ex.restoreSnapshot(pkg, snap)
+			return
+		}
+	}
 	for _, m := range pkg.Members {
 		if g, ok := m.(*ssa.Global); ok {
 			cell := zero(deref(g.Type()))
@@ -568,7 +574,12 @@ func (ex *Exec) ensureInit(pkg *ssa.Package, shared bool) {
 				ex.steps = saveSteps
 			}
 		}()
+		nIn, nTr, nInit := len(ex.inputs), len(ex.trace), len(ex.inited)
 		ex.callSSA(nil, token.NoPos, initFn, nil, nil)
+		if !shared && ex.snaps[pkg] == nil && nIn == len(ex.inputs) && nTr == len(ex.trace) && nInit == len(ex.inited) && ex.initing == 1 {
+			// deterministic, input-free and self-contained: reuse on later paths
+			ex.takeSnapshot(pkg)
+		}
 	}()
 }
 
